@@ -202,11 +202,11 @@ InitState(P, PL, G) ==
    res |-> NoRes, cands |-> {}, hparked |-> FALSE, polldone |-> FALSE,
    hx |-> FALSE, jn |-> "todo", pp |-> "", released |-> {},
    inpoll |-> FALSE, polled |-> FALSE, sinceWake |-> FALSE, woken |-> FALSE, spur |-> FALSE,
-   panicked |-> FALSE, pb |-> -1, zombie |-> FALSE, fresh |-> FALSE]
+   panicked |-> FALSE, pb |-> -1, zombie |-> FALSE, fresh |-> FALSE, started |-> {}, cpb |-> -1]
 
 StartStep(s, st) ==
   LET s1 == [s EXCEPT !.k = st, !.ph = "step", !.capq = Caps(s.prog, st), !.consq = Cons(s.prog, st),
-                      !.ended = {}, !.jn = "todo",
+                      !.ended = {}, !.jn = "todo", !.started = {},
                       \* tasks spawned by this root poll start running only after it returns
                       !.fresh = IsTasks(s.prog) /\ Cardinality(Active(s.prog, st)) > 1,
                       !.arrived = [b \in BrSet(s.prog) |-> FALSE]]
@@ -273,7 +273,10 @@ Settle(s) ==
 ---------------------------------------------------------------------------
 \* enabled events
 
-Running(s) == s.ph = "step" /\ s.capq = <<>> /\ s.consq = <<>> /\ s.pp = ""
+\* a pending injected panic on the caller's side blocks everything; one inside a branch thread only that branch
+CallerPanics(s) == s.pp # "" /\ s.pb = -1
+
+Running(s) == s.ph = "step" /\ s.capq = <<>> /\ s.consq = <<>> /\ ~CallerPanics(s)
               /\ (JoinerMode(s.prog, s.k) = "before" => s.jn = "done")
 
 \* may branch b move now?
@@ -300,7 +303,7 @@ OnCaller(s) == IsAsync(s.prog) => s.inpoll   \* caller-side events of async macr
 
 StepEvents(s) ==
   LET P == s.prog IN
-  IF s.ph # "step" \/ s.panicked \/ s.pp # "" \/ ~OnCaller(s) THEN {}
+  IF s.ph # "step" \/ s.panicked \/ CallerPanics(s) \/ ~OnCaller(s) THEN {}
   ELSE IF s.capq # <<>> THEN {CapEvent(s)}
   ELSE IF JoinerMode(P, s.k) = "before" /\ s.jn = "todo"
        THEN {E("joiner", Cardinality(Active(P, s.k)), -1, NoV, <<>>)}
@@ -320,10 +323,10 @@ HandlerEvents(s) ==
       /\ ~s.panicked /\ OnCaller(s)
    THEN {E("hexpr", 0, -1, NoV, <<>>)} ELSE {})
   \cup
-  (IF s.ph = "hwait" /\ (P.hform = "call" => s.hx) /\ s.pp = "" /\ OnCaller(s)
+  (IF s.ph = "hwait" /\ (P.hform = "call" => s.hx) /\ s.pp = "" /\ ~s.panicked /\ OnCaller(s)
    THEN {E("hcall", 0, -1, NoV, s.res.vals)} ELSE {})
   \cup
-  (IF s.ph = "hawait" /\ s.pp = "" /\ OnCaller(s) THEN
+  (IF s.ph = "hawait" /\ s.pp = "" /\ ~s.panicked /\ OnCaller(s) THEN
       (IF Gated(s, P.hid) /\ P.hid \notin s.released
        THEN (IF s.hparked THEN {} ELSE {E("arrive", P.hid, -1, NoV, <<>>)})
        ELSE {E("hawait", 0, -1, NoV, <<>>)})
@@ -378,7 +381,8 @@ DropsFree(s) == s.dropsFree \/ (IsAsync(s.prog) /\ IsTry(s.prog) /\ s.ph = "step
 
 DropEvents(s) == {E("drop", 0, -1, v, <<>>) : v \in s.garbage}
 
-PanicEvents(s) == IF s.pp # "" THEN {E("panic", 0, -1, NoV, <<>>)} ELSE {}
+\* the injected panic follows the event of the expression that raises it, on the same thread
+PanicEvents(s) == IF s.pp # "" THEN {E("panic", 0, s.pb, NoV, <<>>)} ELSE {}
 
 NextEvents(s) ==
   LifeEvents(s) \cup StepEvents(s) \cup BranchEvents(s) \cup HandlerEvents(s)
@@ -396,8 +400,8 @@ PanicKeyFor(s, e) ==   \* does the plan panic right after this event?
 
 SetPc(s, b, p) == [s EXCEPT !.pc[b] = p]
 
-ApplyBranch(s, e) ==
-  LET P == s.prog  b == e.b  p == s.pc[b] IN
+ApplyBranch(s0, e) ==
+  LET P == s0.prog  b == e.b  p == s0.pc[b]  s == [s0 EXCEPT !.started = s0.started \cup {b}] IN
   CASE e.ev = "init" ->
          LET pk == PanicKeyFor(s, e) IN
          IF pk # "" THEN [s EXCEPT !.pp = pk, !.pb = b]
@@ -418,7 +422,9 @@ ApplyBranch(s, e) ==
     [] e.ev = "arrive" ->
          [SetPc(s, b, [p EXCEPT !.ph = IF p.i = 0 THEN "w" ELSE "x"]) EXCEPT !.arrived[b] = TRUE]
     [] e.ev = "exit" ->
-         [SetPc(s, b, Norm(s, b, p.i + 1, "o", e.v)) EXCEPT !.arrived[b] = FALSE]
+         \* Option::filter drops the value its predicate rejects
+         LET lost == IF p.i > 0 /\ ItemAt(s, b).op = "filter" /\ p.v.ok /\ ~e.v.ok THEN {p.v} ELSE {} IN
+         [SetPc(s, b, Norm(s, b, p.i + 1, "o", e.v)) EXCEPT !.arrived[b] = FALSE, !.garbage = s.garbage \cup lost]
     [] e.ev = "panic" -> [s EXCEPT !.panicked = TRUE, !.pb = b, !.dropsFree = TRUE,
                                    !.zombie = IsSpawn(P)]
     [] OTHER -> s
@@ -434,7 +440,7 @@ ApplyRaw(s, e) ==
   IF IsAsync(P) /\ s.ph = "step" /\ s.consq # <<>> /\ e.ev \in {"init", "opnd"}
   THEN \* construction of the step's futures
        LET pk == PanicKeyFor(s, e) IN
-       IF pk # "" THEN [s EXCEPT !.pp = pk] ELSE [s EXCEPT !.consq = Tail(s.consq)]
+       IF pk # "" THEN [s EXCEPT !.pp = pk, !.cpb = e.b] ELSE [s EXCEPT !.consq = Tail(s.consq)]
   ELSE
   CASE e.ev \in {"begin"} -> StartStep(s, 0)
     [] e.ev = "create" -> [s EXCEPT !.ph = "created0"]
@@ -473,8 +479,18 @@ ApplyRaw(s, e) ==
          IF pk # "" THEN [s EXCEPT !.pp = pk] ELSE [s EXCEPT !.ph = "fin"]
     [] e.ev = "drop" -> [s EXCEPT !.garbage = s.garbage \ {e.v}]
     [] e.ev = "end" -> [s EXCEPT !.ph = IF IsAsync(P) \/ s.zombie THEN "ended" ELSE "closed", !.res = e.res]
-    [] e.ev = "panic" /\ e.b = -1 -> [s EXCEPT !.panicked = TRUE, !.pp = "", !.dropsFree = TRUE,
-                                              !.zombie = IsSpawn(P) /\ s.ph = "step" /\ s.capq = <<>>]
+    [] e.ev = "panic" /\ e.b = -1 ->
+         IF IsTasks(P) /\ s.cpb >= 0 /\ Cardinality(Active(P, s.k)) > 1
+         THEN \* construction of branch cpb's future panicked inside the root poll: the tasks of the
+              \* lower-numbered branches are already spawned and keep running, the others never exist
+              [s EXCEPT !.panicked = TRUE, !.pp = "", !.dropsFree = TRUE, !.consq = <<>>, !.fresh = FALSE,
+                        !.ended = s.ended \cup {b \in Active(P, s.k) : b >= s.cpb},
+                        !.zombie = TRUE]
+         ELSE [s EXCEPT !.panicked = TRUE, !.pp = "", !.dropsFree = TRUE,
+                        \* threads / tasks of the step exist only if the step got that far
+                        !.zombie = IsSpawn(P) /\ s.ph = "step" /\ s.capq = <<>> /\ s.consq = <<>>
+                                   /\ Cardinality(Active(P, s.k)) > 1
+                                   /\ (s.started # {} \/ s.pp = "jn" \/ IsTasks(P))]
     [] e.ev = "arrive" /\ e.b = -1 -> [s EXCEPT !.hparked = TRUE]
     [] OTHER -> ApplyBranch(s, e)
 
